@@ -14,6 +14,7 @@ import (
 	"net/http"
 	"os"
 	"path/filepath"
+	"runtime"
 	"strings"
 	"sync"
 	"sync/atomic"
@@ -98,6 +99,8 @@ type caseRun struct {
 	mu       sync.Mutex
 	tokens   map[string]string // token -> phase it was issued in (pre|win|post|fu)
 	hookOnce sync.Once
+	lockOnce sync.Once
+	lockDone chan error // result of the broadcast fired while the verdict was being written
 	hookHit  bool
 	hookS0   *snap
 	hookErr  error
@@ -211,6 +214,7 @@ func (ch *child) setup() error {
 	ch.tokPrefix = "c06" + randHex(ch.rng, 6)
 	ch.hc = &http.Client{Timeout: 45 * time.Second}
 	verifhook.Set("ws.first_read", ch.firstReadHook)
+	verifhook.Set("ws.send.locked", ch.sendLockedHook)
 
 	h, err := r.StartHTTP(handlers.HTTPConfig{Name: "c06-http"})
 	if err != nil {
@@ -689,6 +693,48 @@ func (ch *child) firstReadHook() {
 	})
 }
 
+// ws.send.locked hook: runs inside SendEvent with the receiving client's write mutex held.
+// When the connection handler itself is the sender (not a broadcast) and the case asks for
+// it, this is the write of the verdict to the probing connection: another goroutine starts
+// a broadcast now, so that the broadcaster meets this connection while its mutex is busy.
+func (ch *child) sendLockedHook() {
+	cr := ch.cur.Load()
+	if cr == nil || cr.sp.LockK == "" || !sentByHandler() {
+		return
+	}
+	cr.lockOnce.Do(func() {
+		done := make(chan error, 1)
+		cr.mu.Lock()
+		cr.lockDone = done
+		cr.mu.Unlock()
+		go func() { done <- ch.bcast(cr.sp.LockK, cr, "lock") }()
+		// hold the write for a moment: the broadcaster reaches this connection's entry
+		// of the client table meanwhile (nothing is judged by this delay)
+		time.Sleep(8 * time.Millisecond)
+		ch.rec.Observe("verdict_write_broadcasts", 1)
+	})
+}
+
+// sentByHandler: SendEvent was called by handleRequest itself, not through EventBroadcast.
+func sentByHandler() bool {
+	var pcs [16]uintptr
+	n := runtime.Callers(3, pcs[:])
+	fr := runtime.CallersFrames(pcs[:n])
+	handler := false
+	for {
+		f, more := fr.Next()
+		if strings.HasSuffix(f.Function, ".EventBroadcast") || strings.Contains(f.Function, ".EventBroadcast.") {
+			return false
+		}
+		if strings.HasSuffix(f.Function, ".handleRequest") {
+			handler = true
+		}
+		if !more {
+			return handler
+		}
+	}
+}
+
 // ---------------------------------------------------------------------------------------
 // Frame oracle for a connection that has not authenticated.
 // ---------------------------------------------------------------------------------------
@@ -1010,7 +1056,21 @@ func (ch *child) runOp(sp *Spec) (restart bool) {
 	ch.rec.Observe("ms:send-to-verdict", time.Since(tSend).Milliseconds())
 	cr.mu.Lock()
 	hookHit, hookErr, hookS0 := cr.hookHit, cr.hookErr, cr.hookS0
+	lockDone := cr.lockDone
 	cr.mu.Unlock()
+	if lockDone != nil {
+		// the broadcast that was started while the verdict was being written must be over
+		// before anything else is done with this case
+		select {
+		case err := <-lockDone:
+			if err != nil {
+				return ch.wedge(sp, "during-verdict-write "+sp.LockK, err)
+			}
+		case <-time.After(120 * time.Second):
+			ch.rec.Inconclusive(fmt.Sprintf("case %d (%s): the broadcast started during the verdict write did not finish within 120 s", sp.ID, sp.Class))
+			return true
+		}
+	}
 	if hookErr != nil {
 		return ch.wedge(sp, "in-window "+sp.WinK, hookErr)
 	}
@@ -1074,6 +1134,17 @@ func (ch *child) runOp(sp *Spec) (restart bool) {
 	if !haveS0 {
 		ch.rec.Observe("no_baseline_snapshot", 1)
 		S0 = S1
+	}
+	if lockDone != nil {
+		// the chats of the broadcast started during the verdict write (one event per token
+		// issued in that phase) are the harness's own
+		cr.mu.Lock()
+		for _, ph := range cr.tokens {
+			if ph == "lock" {
+				S0.Harness++
+			}
+		}
+		cr.mu.Unlock()
 	}
 	if k, what := snapDiff(S0, S1, true); k != "" {
 		ch.rec.Violation("state:"+k+":handshake", fmt.Sprintf("class %q: a handshake that did not authenticate changed teamserver state: %s", sp.Class, what), map[string]any{"spec": sp, "message": short(msg), "diff": what})
